@@ -253,10 +253,60 @@ def delStones (d : Db) (a b : Int) (sel : Option Nat) : List (Nat × Interval) :
     if hitSel sel s.idx then
       match s.phys.head?, s.phys.getLast? with
       | some f, some l =>
+        if (clampInterval (clampInterval a b d.minT d.maxT).1 (clampInterval a b d.minT d.maxT).2 f.t l.t).1 >
+           (clampInterval (clampInterval a b d.minT d.maxT).1 (clampInterval a b d.minT d.maxT).2 f.t l.t).2 then none else
         some (s.idx, ⟨(clampInterval (clampInterval a b d.minT d.maxT).1 (clampInterval a b d.minT d.maxT).2 f.t l.t).1,
                       (clampInterval (clampInterval a b d.minT d.maxT).1 (clampInterval a b d.minT d.maxT).2 f.t l.t).2⟩)
       | _, _ => none
     else none
+
+theorem clamp_inverted {a b m M f l x : Int}
+    (h : (clampInterval (clampInterval a b m M).1 (clampInterval a b m M).2 f l).1 >
+         (clampInterval (clampInterval a b m M).1 (clampInterval a b m M).2 f l).2)
+    (h1 : m ≤ x) (h2 : x ≤ M) (h3 : f ≤ x) (h4 : x ≤ l) : ¬ (a ≤ x ∧ x ≤ b) := by
+  simp only [clampInterval] at h
+  by_cases c1 : a < m <;> by_cases c2 : b > M <;> simp only [c1, c2, if_true, if_false] at h <;>
+    (split at h <;> split at h <;> omega)
+
+/-- The head stone of one series (none when the requested range misses the series' own range). -/
+def stoneOf (d : Db) (a b : Int) (sel : Option Nat) (s : HSeries) : Option (Nat × Interval) :=
+  if hitSel sel s.idx then
+    match s.phys.head?, s.phys.getLast? with
+    | some f, some l =>
+      if (clampInterval (clampInterval a b d.minT d.maxT).1 (clampInterval a b d.minT d.maxT).2 f.t l.t).1 >
+         (clampInterval (clampInterval a b d.minT d.maxT).1 (clampInterval a b d.minT d.maxT).2 f.t l.t).2 then none else
+      some (s.idx, ⟨(clampInterval (clampInterval a b d.minT d.maxT).1 (clampInterval a b d.minT d.maxT).2 f.t l.t).1,
+                    (clampInterval (clampInterval a b d.minT d.maxT).1 (clampInterval a b d.minT d.maxT).2 f.t l.t).2⟩)
+    | _, _ => none
+  else none
+
+theorem delStones_eq (d : Db) (a b : Int) (sel : Option Nat) :
+    delStones d a b sel = d.series.filterMap (stoneOf d a b sel) := rfl
+
+theorem stoneOf_key {d : Db} {a b : Int} {sel : Option Nat} (u : HSeries) (p : Nat × Interval)
+    (hp : stoneOf d a b sel u = some p) : p.1 = u.idx := by
+  unfold stoneOf at hp
+  split at hp
+  · split at hp
+    · split at hp
+      · simp at hp
+      · simp only [Option.some.injEq] at hp; rw [← hp]
+    · simp at hp
+  · simp at hp
+
+/-- Every logged head stone is a valid interval. -/
+theorem stoneOf_valid {d : Db} {a b : Int} {sel : Option Nat} (u : HSeries) (p : Nat × Interval)
+    (hp : stoneOf d a b sel u = some p) : p.2.mint ≤ p.2.maxt := by
+  unfold stoneOf at hp
+  split at hp
+  · split at hp
+    · split at hp
+      · simp at hp
+      · rename_i hgt
+        simp only [Option.some.injEq] at hp; rw [← hp]
+        simp only; omega
+    · simp at hp
+  · simp at hp
 
 def delHT (d : Db) (a b : Int) (sel : Option Nat) (s : HSeries) : Intervals :=
   if d.minT ≤ b ∧ a ≤ d.maxT then
@@ -347,31 +397,27 @@ theorem visible_addTomb {ts : Intervals} {iv : Interval} (hc : AddCoversAt ts iv
 
 /-- (d) `DB.Delete`: exactly the samples of the selected series with `a ≤ t ≤ b` disappear
     (`Inv` and `Sim` are preserved; `LastVis` is not — that is finding F28). -/
-theorem delete_preserves {d : Db} {r : Ref} (hI : Inv d) (hS : Sim d r) (hC : CoverHyp d)
-    (a b : Int) (sel : Option Nat) :
+theorem delete_preserves_at {d : Db} {r : Ref} (hI : Inv d) (hS : Sim d r)
+    (a b : Int) (sel : Option Nat)
+    (hCh : ∀ s ∈ d.series, hitSel sel s.idx = true → ∀ f l, s.phys.head? = some f → s.phys.getLast? = some l →
+      (d.minT ≤ b ∧ a ≤ d.maxT) →
+      (clampInterval (clampInterval a b d.minT d.maxT).1 (clampInterval a b d.minT d.maxT).2 f.t l.t).1 ≤
+        (clampInterval (clampInterval a b d.minT d.maxT).1 (clampInterval a b d.minT d.maxT).2 f.t l.t).2 →
+      AddCoversAt s.tombs ⟨(clampInterval (clampInterval a b d.minT d.maxT).1 (clampInterval a b d.minT d.maxT).2 f.t l.t).1,
+                           (clampInterval (clampInterval a b d.minT d.maxT).1 (clampInterval a b d.minT d.maxT).2 f.t l.t).2⟩)
+    (hCb : ∀ blk ∈ d.blocks, ∀ s ∈ blk.series, hitSel sel s.idx = true → ∀ f l, s.smps.head? = some f →
+      s.smps.getLast? = some l → (s.smps.any fun x => a ≤ x.t ∧ x.t ≤ b) = true →
+      AddCoversAt s.tombs ⟨(clampInterval a b f.t l.t).1, (clampInterval a b f.t l.t).2⟩) :
     Inv (d.delete a b sel) ∧ Sim (d.delete a b sel) (r.del a b sel) := by
   obtain ⟨e1, e2, e3, e4, e5⟩ := delete_scalars d a b sel
   have hd : d.delete a b sel = { d with series := d.series.map (fun s => { s with tombs := delHT d a b sel s }), blocks := d.blocks.map (fun blk => { blk with series := blk.series.map (fun s => { s with tombs := delBT a b sel blk s }) }), wal := (d.delete a b sel).wal } :=
     Db.ext' e1 e2 e3 e4 (delete_series d a b sel) (delete_blocks d a b sel) rfl e5
   rw [hd]
   -- the stone of a head series
-  have hstone : ∀ s ∈ d.series, (delStones d a b sel).find? (fun p => p.1 = s.idx) =
-      (if hitSel sel s.idx then
-        match s.phys.head?, s.phys.getLast? with
-        | some f, some l =>
-          some (s.idx, ⟨(clampInterval (clampInterval a b d.minT d.maxT).1 (clampInterval a b d.minT d.maxT).2 f.t l.t).1,
-                        (clampInterval (clampInterval a b d.minT d.maxT).1 (clampInterval a b d.minT d.maxT).2 f.t l.t).2⟩)
-        | _, _ => none
-      else none) := by
+  have hstone : ∀ s ∈ d.series, (delStones d a b sel).find? (fun p => p.1 = s.idx) = stoneOf d a b sel s := by
     intro s hs
-    unfold delStones
-    apply find_filterMap_key hI.idxNodup _ _ hs
-    intro u p hp
-    split at hp
-    · split at hp
-      · simp only [Option.some.injEq] at hp; rw [← hp]
-      · simp at hp
-    · simp at hp
+    rw [delStones_eq]
+    exact find_filterMap_key hI.idxNodup _ (fun u p hp => stoneOf_key u p hp) hs
   apply retomb_preserves hI hS a b sel
   · -- head visibility
     intro s hs x hx
@@ -380,6 +426,7 @@ theorem delete_preserves {d : Db} {r : Ref} (hI : Inv d) (hS : Sim d r) (hC : Co
     have hhi := hI.physHi s hs x hx
     split
     · rw [hstone s hs]
+      unfold stoneOf
       cases hf : s.phys.head? with
       | none => have : s.phys = [] := by simpa using hf
                 rw [this] at hx; simp at hx
@@ -392,19 +439,25 @@ theorem delete_preserves {d : Db} {r : Ref} (hI : Inv d) (hS : Sim d r) (hC : Co
           have h2 := (hI.physInc s hs).le_getLast hl x hx
           by_cases hh : hitSel sel s.idx = true
           · simp only [hh, if_true, Bool.true_and]
-            rw [visible_addTomb (hC.head s hs _)]
-            congr 2
-            simp only [clampInterval]
-            apply decide_eq_decide.2
-            constructor
-            · rintro ⟨h3, h4⟩
+            by_cases hinv : (clampInterval (clampInterval a b d.minT d.maxT).1 (clampInterval a b d.minT d.maxT).2 f.t l.t).1 >
+                (clampInterval (clampInterval a b d.minT d.maxT).1 (clampInterval a b d.minT d.maxT).2 f.t l.t).2
+            · -- inverted: the requested range misses the series, nothing is hidden
+              have : ¬ (a ≤ x.t ∧ x.t ≤ b) := clamp_inverted hinv hlo hhi h1 h2
+              simp [hinv, this]
+            · simp only [hinv, if_false]
+              rw [visible_addTomb (hCh s hs hh f l hf hl (by assumption) (by omega))]
+              congr 2
+              simp only [clampInterval]
+              apply decide_eq_decide.2
               constructor
-              · split at h3 <;> split at h3 <;> omega
-              · split at h4 <;> split at h4 <;> omega
-            · rintro ⟨h3, h4⟩
-              constructor
-              · split <;> split <;> omega
-              · split <;> split <;> omega
+              · rintro ⟨h3, h4⟩
+                constructor
+                · split at h3 <;> split at h3 <;> omega
+                · split at h4 <;> split at h4 <;> omega
+              · rintro ⟨h3, h4⟩
+                constructor
+                · split <;> split <;> omega
+                · split <;> split <;> omega
           · simp [hh]
     · rename_i hov
       have : ¬ (a ≤ x.t ∧ x.t ≤ b) := by omega
@@ -429,8 +482,9 @@ theorem delete_preserves {d : Db} {r : Ref} (hI : Inv d) (hS : Sim d r) (hC : Co
             have h2 := (hI.blkInc blk hb s hs).le_getLast hl x hx
             simp only
             split
-            · simp only
-              rw [visible_addTomb (hC.blk blk hb s hs _)]
+            · rename_i hany
+              simp only
+              rw [visible_addTomb (hCb blk hb s hs hh f l hf hl hany)]
               congr 2
               simp only [clampInterval]
               apply decide_eq_decide.2
@@ -457,6 +511,7 @@ theorem delete_preserves {d : Db} {r : Ref} (hI : Inv d) (hS : Sim d r) (hC : Co
     unfold delHT at hiv
     split at hiv
     · rw [hstone s hs] at hiv
+      unfold stoneOf at hiv
       by_cases hh : hitSel sel s.idx = true
       · simp only [hh, if_true] at hiv
         cases hf : s.phys.head? with
@@ -464,11 +519,23 @@ theorem delete_preserves {d : Db} {r : Ref} (hI : Inv d) (hS : Sim d r) (hC : Co
                   rw [this] at hl; simp at hl
         | some f =>
           simp only [hf, hl] at hiv
-          refine addTomb_maxt_le s.tombs _ l.t (fun y hy => hI.tombHi s hs y hy l hl) ?_ iv hiv
-          simp only [clampInterval]
-          split <;> omega
+          by_cases hinv : (clampInterval (clampInterval a b d.minT d.maxT).1 (clampInterval a b d.minT d.maxT).2 f.t l.t).1 >
+              (clampInterval (clampInterval a b d.minT d.maxT).1 (clampInterval a b d.minT d.maxT).2 f.t l.t).2
+          · simp only [hinv, if_true] at hiv
+            exact hI.tombHi s hs iv hiv l hl
+          · simp only [hinv, if_false] at hiv
+            refine addTomb_maxt_le s.tombs _ l.t (fun y hy => hI.tombHi s hs y hy l hl) ?_ iv hiv
+            simp only [clampInterval]
+            split <;> omega
       · simp only [hh, Bool.false_eq_true, if_false] at hiv
         exact hI.tombHi s hs iv hiv l hl
     · exact hI.tombHi s hs iv hiv l hl
+
+/-- The same under the blanket coverage hypothesis. -/
+theorem delete_preserves {d : Db} {r : Ref} (hI : Inv d) (hS : Sim d r) (hC : CoverHyp d)
+    (a b : Int) (sel : Option Nat) :
+    Inv (d.delete a b sel) ∧ Sim (d.delete a b sel) (r.del a b sel) :=
+  delete_preserves_at hI hS a b sel (fun s hs _ _ _ _ _ _ _ => hC.head s hs _)
+    (fun blk hb s hs _ _ _ _ _ _ => hC.blk blk hb s hs _)
 
 end Prom.Db
